@@ -53,6 +53,6 @@ def plan(tier):
                "symbolic metadata; one step of create_snapshot / delete_entries_from / reads / append of 1 entry, all with symbolic "
                "64-bit arguments; append of 2 consecutive entries on the empty log" % maxl)
     p.not_covered = "logs longer than %d, batches longer than 2, concurrency between callers, persistence (the module has none)" % maxl
-    p.per_harness_timeout = 600 if tier == "quick" else 1500
-    p.total_timeout = 1500 if tier == "quick" else 7000
+    p.per_harness_timeout = 900 if tier == 'quick' else 1500
+    p.total_timeout = 2700 if tier == 'quick' else 7000
     return p
